@@ -137,19 +137,29 @@ Arguments algo : clear implicits.
    The test algorithm used against the real mixin: a table-driven computation whose
    on_start / on_new_cycle send what the table [plan] says for (node, cycle); payloads are
    integers; it records nothing (state = unit). *)
-Definition plan_t := list (node * list (list (node * Z) * list (node * Z))).
+(* one planned send: (target, fresh value, relay source).  relay source < 0: send a fresh
+   message carrying the value; otherwise RE-SEND the message object received from that
+   source in this round (its payload), or the fresh value if that source only sent a sync *)
+Definition pent := (node * Z * Z)%type.
+Definition plan_t := list (node * list (list pent * list pent)).
 
-Definition plan_at (pl : plan_t) (n : node) (k : nat) : list (node * Z) * list (node * Z) :=
+Definition plan_at (pl : plan_t) (n : node) (k : nat) : list pent * list pent :=
   match zlookup n pl with
   | Some rows => nth k rows ([], [])
   | None => ([], [])
   end.
 
-(* row 0 = on_start (posted part only), row k+1 = on_new_cycle with cycle_id k *)
+Definition resolve (msgs : list (node * Z)) (e : pent) : node * Z :=
+  let '(t, v, r) := e in
+  if Z.ltb r 0 then (t, v)
+  else match zlookup r msgs with Some x => (t, x) | None => (t, v) end.
+
+(* row 0 = on_start (posted part only, nothing received yet), row k+1 = on_new_cycle k *)
 Definition table_algo (pl : plan_t) : algo unit Z :=
   mkAlgo (fun _ => tt)
-         (fun n _ => (tt, fst (plan_at pl n 0)))
-         (fun n _ k _ => (tt, fst (plan_at pl n (S k)), snd (plan_at pl n (S k)))).
+         (fun n _ => (tt, map (resolve []) (fst (plan_at pl n 0))))
+         (fun n _ k msgs => (tt, map (resolve msgs) (fst (plan_at pl n (S k))),
+                                 map (resolve msgs) (snd (plan_at pl n (S k))))).
 
 Definition nbrs_of (g : list (node * list node)) (n : node) : list node :=
   match zlookup n g with Some l => l | None => [] end.
